@@ -744,13 +744,19 @@ class SequencerSuite(Suite):
         return None
 
     def shrink_candidates(self, inp):
+        """ at most ~24 candidates per round (each round costs one Coq evaluation of all of them): halves, then
+        removal of chunks of decreasing size """
         ops = inp.get('ops')
         if not ops or len(ops) <= 1:
             return []
-        cands = [{'cf': inp['cf'], 'ops': ops[:k] + ops[k + 1:]} for k in range(len(ops))]
-        if len(ops) > 8:
-            cands = [{'cf': inp['cf'], 'ops': ops[:len(ops) // 2]}, {'cf': inp['cf'], 'ops': ops[:-4]}] + cands
-        return cands
+        n = len(ops)
+        cands = []
+        if n > 8:
+            cands += [{'cf': inp['cf'], 'ops': ops[:n // 2]}, {'cf': inp['cf'], 'ops': ops[:-max(1, n // 8)]}]
+        size = max(1, n // 20)
+        for k in range(0, n, size):
+            cands.append({'cf': inp['cf'], 'ops': ops[:k] + ops[k + size:]})
+        return cands[:26]
 
     def distribution(self, inputs, observeds):
         kinds, lens, crashes, outs = {}, {}, {}, {}
